@@ -141,22 +141,37 @@ func runC12Case(c c12Case) *c12Outcome {
 	}
 	run := clirun.New(entry, srv.Client())
 	var closed atomic.Bool
+	var closeStuck atomic.Bool
+	// Close must return wherever it is called from (a user callback included): it runs in its own
+	// goroutine and the caller waits for it, but not for ever
+	guardedClose := func(n int) {
+		done := make(chan struct{})
+		go func() {
+			defer close(done)
+			for i := 0; i < n; i++ {
+				run.C.Close()
+			}
+		}()
+		select {
+		case <-done:
+		case <-time.After(6 * time.Second):
+			closeStuck.Store(true)
+		}
+	}
 	doClose := func() {
 		closed.Store(true)
 		switch c.Mode {
 		case "thrice":
-			run.C.Close()
-			run.C.Close()
-			run.C.Close()
+			guardedClose(3)
 		case "concurrent":
 			var wg sync.WaitGroup
 			for i := 0; i < 2; i++ {
 				wg.Add(1)
-				go func() { defer wg.Done(); run.C.Close() }()
+				go func() { defer wg.Done(); guardedClose(1) }()
 			}
 			wg.Wait()
 		default:
-			run.C.Close()
+			guardedClose(1)
 		}
 	}
 	if c.Fault == "ontracks" {
@@ -216,9 +231,12 @@ func runC12Case(c c12Case) *c12Outcome {
 		}()
 	}
 	ok := run.WaitResult(watchdog)
+	if closeStuck.Load() {
+		fail("close-blocks", "%s: Close() did not return within 6 s (called %s)", c, c.Close)
+	}
 	if !ok {
 		fail("no-result", "%s: Wait() yielded nothing (requests so far %d, delivered %d)", c, srv.Count(), run.Delivered())
-		run.C.Close()
+		guardedClose(1)
 		run.WaitResult(5 * time.Second)
 		return out
 	}
